@@ -60,6 +60,12 @@ def h_step(ctx):
     EXC = ctx.lib('common.exceptions')
     hdr = _sym_header(ctx, C)
     pre = _sym_regs(ctx, hdr)
+    # arbitrary file table before the step: entries with symbolic fields (a define_file may repeat one of them field for field - it still
+    # adds an entry, DWARF 6.2.5.3: file numbers are assigned in order of appearance)
+    files0 = []
+    for i in range(cfg.get('files', 0)):
+        files0.append((ctx.mkbytes([ctx.int_range('f%d.name' % i, 1, 127)]), ctx.uint('f%d.dir' % i, 7), ctx.uint('f%d.mtime' % i, 7), ctx.uint('f%d.len' % i, 7)))
+        hdr['file_entry'].append(C.Container(name=files0[-1][0], dir_index=files0[-1][1], mtime=files0[-1][2], length=files0[-1][3]))
     bs = ctx.bytes('i', n)
     op = bs[0]
     if klass == 'special':
@@ -129,15 +135,16 @@ def h_step(ctx):
         LPR.same_regs(ctx, rows[0], row, '%s/row' % kind, ctx.check)
     LPR.same_regs(ctx, insts[-1], st, '%s/post' % kind, ctx.check)
     ctx.check_eq('%s/consumed' % kind, stream.tell(), rd.pos)
+    fe = hdr['file_entry']
     if kind == 'define_file':
-        fe = hdr['file_entry']
-        ctx.check_eq('define_file/appended', len(fe), 1)
-        if len(fe) == 1:
+        ctx.check_eq('define_file/appended', len(fe), len(files0) + 1)
+        if len(fe) == len(files0) + 1:
             name, d, m, l = newfile
-            ctx.check_eq('define_file/name', fe[0]['name'], ctx.mkbytes(name))
-            ctx.check_eq('define_file/fields', [fe[0]['dir_index'], fe[0]['mtime'], fe[0]['length']], [d, m, l])
+            ctx.check_eq('define_file/name', fe[-1]['name'], ctx.mkbytes(name))
+            ctx.check_eq('define_file/fields', [fe[-1]['dir_index'], fe[-1]['mtime'], fe[-1]['length']], [d, m, l])
     else:
-        ctx.check_eq('%s/file-table-unchanged' % kind, len(hdr['file_entry']), 0)
+        ctx.check_eq('%s/file-table-unchanged' % kind, len(fe), len(files0))
+    ctx.check_eq('%s/earlier-file-entries-unchanged' % kind, [(f['name'], f['dir_index'], f['mtime'], f['length']) for f in fe[:len(files0)]], files0)
 
 
 def _ref_step(ctx, st, hdr, rd, little, addr):
@@ -513,6 +520,7 @@ def _step_instances(tier):
         out.append(dict(e, n=3 + e['addr'] + 1, klass='extended', ext=2))
         out.append(dict(e, n=3 + e['addr'] - 1, klass='extended', ext=2))
         out.append(dict(e, n=3 + (7 if tier == 'quick' else 9), klass='extended', ext=3))
+        out.append(dict(e, n=3 + 5, klass='extended', ext=3, files=2))
         out.append(dict(e, n=3 + nleb, klass='extended', ext=4))
         out.append(dict(e, n=8, klass='extended', ext=None))
         out.append(dict(e, n=9, klass='extended', ext=None, lenleb=2))
